@@ -14,10 +14,12 @@ def build(P):
     P.verify(D.TD + "TaskDispatcher.handle_rpcmessage_response", D.handle_rpcmessage_response_contract(), tags=("C16",), timeout=30)
     P.lemma_module("lemmas/c16_limits.py")
     P.lemma("lemmas/c16_limits.py::limits_agree")
+    P.native("history-limit", "natives.c16:history_limit", kind="bounded", clause="C16:",
+             bound="a state entered as event #24999, #25000, #25001, #25002 of the execution history, through the real engine")
     P.explanation = ("Boundary obligations at the enforcement points: change_state (state output: exactly 262144 characters is "
                      "published, one more fails with States.DataLimitExceeded and publishes nothing), handle_rpcmessage_response "
                      "(a reply of exactly 262144 is parsed, one more is never parsed), valid_name (1..80 characters, no forbidden "
                      "character) in both front ends, and the limit constants read from the modules.")
-    P.not_decided = ["API-level limits (StartExecution input, SendTaskSuccess output, definition size) and the history limit "
-                     "in the body of notify are not yet under contract",
+    P.not_decided = ["API-level limits (StartExecution input, SendTaskSuccess output, definition size) are not yet under contract; the 25000-event "
+                     "history limit in the body of notify is checked by a bounded stand-in only",
                      "the reply size is measured on the encoded bytes, the state output on characters (documented difference)"]
